@@ -50,21 +50,35 @@ ASSUMPTIONS = [
 
 IMPORTS = "From Coq Require Import NArith List.\nFrom DvcData Require Import Model.Integrity Model.IntegrityFault."
 
-POOL = [b"alpha-1", b"beta-22", b"", b"gamma gamma gamma", b"d", b"ALPHA-1"]
+POOL = [b"alpha-1", b"beta-22", b"", b"gamma gamma gamma", b"d", b"ALPHA-1",
+        b"obj-179",                    # md5 ...4fdd: an id ending in "dd" (rstrip(".dir") pitfall)
+        b"line one\r\nline two\r\n"]  # CRLF text: md5 and md5-dos2unix differ
+ALG = ["md5"]   # the algorithm of the store of the case being run (set by run_case)
+
+
+def hx(b):
+    """independent digest of an object's bytes under the store's algorithm; the contents in play are
+    short text without NUL, for which md5-dos2unix = md5 of the bytes with CRLF -> LF"""
+    import hashlib
+
+    if ALG[0] == "md5-dos2unix":
+        b = bytes(b).replace(b"\r\n", b"\n")
+    return hashlib.md5(b).hexdigest()  # noqa: S324
+
 MODES = [0o644, 0o444, 0o600, 0o664, 0o400]
 ABSENT = "0" * 32
 
 
 def tree_listing(ents):
     """[(name, md5 of POOL[k])] of a tree reference ["tree", [[name, k], ...]]"""
-    return [(nm, impl.md5hex(POOL[k])) for nm, k in ents]
+    return [(nm, hx(POOL[k])) for nm, k in ents]
 
 
 def oid_of(ref):
     k, suf = ref
     if k == "tree":   # the .dir object of the directory listing suf (independent canonical encoder)
         return impl.dir_oid(tree_listing(suf))
-    return (ABSENT if k < 0 else impl.md5hex(POOL[k])) + suf
+    return (ABSENT if k < 0 else hx(POOL[k])) + suf
 
 
 def src_bytes(ref, sk):
@@ -129,6 +143,8 @@ class Real:
             def remove(path, *a, **kw):
                 for q in ([path] if isinstance(path, str) else list(path)):
                     if os.path.abspath(q).startswith(shard):
+                        if self.case.get("fault_errno") == "EIO":
+                            raise OSError(5, "Input/output error", q)
                         raise PermissionError(13, "Permission denied", q)
                 return real_remove(path, *a, **kw)
 
@@ -141,8 +157,11 @@ class Real:
         from dvc_data.hashfile.db.local import LocalHashFileDB
 
         k = LocalHashFileDB if self.cls == "local" else HashFileDB
+        cfg = {}
+        if self.case.get("links"):
+            cfg["type"] = list(self.case["links"])
         return k(self.fs, os.path.abspath(self.store), state=self.state, verify=self.case.get("verify", False),
-                 read_only=self.ro)
+                 read_only=self.ro, hash_name=self.case.get("alg", "md5"), **cfg)
 
     def faulty(self, oid):
         return bool(self.fault) and oid[:2] == self.fault
@@ -211,9 +230,9 @@ class Real:
             b = self.read(o)
             r = self.row(o)
             honest = True
-            if r is not None and r[2] == self.checksum(st) and r[0] == "md5":
-                honest = r[1].split(".")[0] == impl.md5hex(b)
-            out[o] = {"exists": True, "bytes": b, "mode": st["mode"], "intact": impl.md5hex(b) == o.split(".")[0],
+            if r is not None and r[2] == self.checksum(st) and r[0] == ALG[0]:
+                honest = r[1].split(".")[0] == hx(b)
+            out[o] = {"exists": True, "bytes": b, "mode": st["mode"], "intact": hx(b) == o.split(".")[0],
                       "honest": honest, "row": r is not None, "tok": (st["ino"], st["mtime_ns"], st["size"])}
         return out
 
@@ -239,6 +258,8 @@ def tok_term(st):
 
 def exc_code(exc):
     n = type(exc).__name__
+    if type(exc) is OSError and exc.errno == 5:
+        return 98
     return {"ObjectDBPermissionError": 1, "FileNotFoundError": 2, "ObjectFormatError": 3, "CheckoutError": 5,
             "PermissionError": 98}.get(n, 99)
 
@@ -266,13 +287,14 @@ def run_case(ctx, case):
     from dvc_data.hashfile.hash_info import HashInfo
     from dvc_data.hashfile.obj import HashFile
 
+    ALG[0] = case.get("alg", "md5")
     R = Real(ctx, case)
     ops_t, outs, problems, tags = [], [], [], set()
     nontrivial = False
     table = {}
 
     def H(b):
-        table[bytes(b)] = impl.md5hex(b)
+        table[bytes(b)] = hx(b)
         return table[bytes(b)]
 
     def fail(sig, what):
@@ -363,7 +385,7 @@ def run_case(ctx, case):
                         q = post[o]
                         if q["exists"] and not q["intact"]:
                             fail("C07:verify-retained-mismatch", f"store with verify retained mismatching object {o} after add")
-                        src_ok = impl.md5hex(src_bytes(r_, sk)) == o.split(".")[0]
+                        src_ok = hx(src_bytes(r_, sk)) == o.split(".")[0]
                         kept_old = p["exists"] and p["intact"]
                         if not src_ok and not kept_old and (o, 3) not in errs:
                             fail("C07:verify-drop-not-reported", f"object {o} dropped by verification was not reported through on_error")
@@ -439,12 +461,18 @@ def run_case(ctx, case):
                 pre = R.snap()
                 R.wsn += 1
                 dest = os.path.join(R.ws, f"out{R.wsn}")
-                obj = HashFile(None, None, HashInfo("md5", o))
+                obj = HashFile(None, None, HashInfo(ALG[0], o, obj_name=("labelled/obj" if R.wsn % 2 else None)))
                 try:
                     checkout(dest, localfs, obj, R.odb, state=R.state if with_state else None, quiet=True)
                     code = 0
                 except Exception as exc:  # noqa: BLE001
                     code = exc_code(exc)
+                    if code == 2 and "symlink" in (case.get("links") or []):
+                        # symlink link type: the link to the (deleted) object is created, then the stat of
+                        # the new workspace path fails: a refusal with another exception class that
+                        # leaves a DANGLING symlink; no bytes are materialised (checked below)
+                        tags.add("checkout:symlink-refused-as-FileNotFoundError")
+                        code = 5
                     if with_state and code == 2:
                         # with a state, a single-file target whose source is gone fails in _save_link
                         # (stat of the never-created path) before CheckoutError is raised: a refusal
@@ -453,9 +481,11 @@ def run_case(ctx, case):
                         code = 5
                 post = R.snap()
                 got = None
-                if os.path.lexists(dest):
+                if os.path.exists(dest):
                     with open(dest, "rb") as f:
                         got = f.read()
+                elif os.path.lexists(dest):
+                    tags.add("checkout:dangling-symlink-left")
                 ops_t.append(ctor("OCheckout", cbytes(o)))
                 aborted = bool(R.fault) and code == 98
                 if aborted:
@@ -482,7 +512,7 @@ def run_case(ctx, case):
                 ents = [(nm, oid_of(r)) for nm, r in op[1]]
                 tree = Tree()
                 for nm, o in ents:
-                    tree.add((nm,), Meta(), HashInfo("md5", o))
+                    tree.add(tuple(nm.split("/")), Meta(), HashInfo("md5", o, obj_name=("dir/" + nm if R.wsn % 2 else None)))
                     R.known.add(o)
                 tree.digest()
                 d = tree.hash_info.value
@@ -591,6 +621,38 @@ def run_case(ctx, case):
                     os.unlink(p)
                 ops_t.append(ctor("ODel", cbytes(o)))
                 outs.append(vL([]))
+            elif kind == "checknh":
+                o = oid_of(op[1])
+                R.known.add(o)
+                pre = R.snap()
+                try:
+                    R.odb.check(o, check_hash=False)
+                    code = 0
+                except Exception as exc:  # noqa: BLE001
+                    code = exc_code(exc)
+                post = R.snap()
+                ops_t.append(ctor("OCheckNoHash", cbytes(o)))
+                outs.append(vL([vN(1), vN(code)]))
+                tags.add("check:nohash")
+                judge_unharmed(pre, post, "check(check_hash=False)")
+                if any(post[x] != pre[x] for x in pre):
+                    fail("C07:nohash-check-modified", "check(check_hash=False) changed the store")
+            elif kind == "addbytes":
+                # ObjectDB.add_bytes(oid, data): no verification, no protection, no state row
+                _, ref, sk = op
+                o = oid_of(ref)
+                R.known.add(o)
+                new = src_bytes(ref, sk)
+                R.advance_wall_clock()
+                if R.ro:
+                    continue
+                R.odb.add_bytes(o, new)
+                R.note_wall(o)
+                st = R.stat(o)
+                H(new)
+                ops_t.append(ctor("OSet", cbytes(o), cbytes(new), cN(st["mode"]), tok_term(st)))
+                outs.append(vL([]))
+                tags.add("route:add_bytes")
             elif kind == "checktree":
                 # dvc_data.hashfile.check(odb, tree): every entry, then the tree's own .dir object
                 from dvc_data.hashfile import check as tree_check
@@ -600,12 +662,12 @@ def run_case(ctx, case):
                 ents = op[1]
                 tree = Tree()
                 for nm, k in ents:
-                    tree.add((nm,), Meta(), HashInfo("md5", impl.md5hex(POOL[k])))
+                    tree.add(tuple(nm.split("/")), Meta(), HashInfo("md5", hx(POOL[k]), obj_name=(nm if len(ops_t) % 2 else None)))
                 tree.digest()
                 d = oid_of(["tree", ents])
                 if tree.hash_info.value != d or tree.as_bytes() != impl.canon_listing(tree_listing(ents)):
                     fail("C07:harness:tree-encoding", "independent directory encoder disagrees with Tree")
-                seq = [impl.md5hex(POOL[k]) for _, k in ents] + [d]
+                seq = [hx(POOL[k]) for _, k in ents] + [d]
                 for o in seq:
                     R.known.add(o)
                 pre = R.snap()
@@ -657,7 +719,8 @@ def run_case(ctx, case):
                 from dvc_data.hashfile.build import build
                 from dvc_data.hashfile.transfer import transfer
 
-                _, ref, change, verify, hardlink = op
+                _, ref, change, verify, hardlink = op[:5]
+                from_odb = len(op) > 5 and op[5] == "odb"   # the source is another object store (fetch)
                 o = oid_of(ref)
                 R.known.add(o)
                 R.wsn += 1
@@ -667,7 +730,7 @@ def run_case(ctx, case):
                     f.write(orig)
                 t = R.clock.tick()
                 os.utime(wsf, ns=(t, t))
-                staging, _, sobj = build(R.odb, wsf, localfs, "md5")
+                staging, _, sobj = build(R.odb, wsf, localfs, ALG[0])
                 if sobj.hash_info.value != o:
                     fail("C07:harness:build-oid", "build() named the staged file differently")
                 new = tamper_bytes(change, orig, POOL[(ref[0] + 1) % len(POOL)])
@@ -683,6 +746,13 @@ def run_case(ctx, case):
                     t = R.clock.tick()
                     os.utime(wsf, ns=(t, t))
                 H(new)
+                if from_odb:
+                    from dvc_data.hashfile.db import HashFileDB as _HDB
+
+                    rdir = os.path.join(R.root, f"remote{R.wsn}")
+                    impl.plant(rdir, o, new, mode=0o444)
+                    staging = _HDB(R.fs, rdir, hash_name=ALG[0], verify=verify)
+                    tags.add("xfer:from-odb")
                 pre = R.snap()
                 R.advance_wall_clock()
                 dest = R.odb
@@ -691,7 +761,8 @@ def run_case(ctx, case):
                     dest = R.mk_odb()
                     R.ro = True
                 try:
-                    res = transfer(staging, dest, {sobj.hash_info}, verify=verify, hardlink=hardlink)
+                    res = transfer(staging, dest, {HashInfo(ALG[0], o, obj_name="ws/label")}, verify=verify,
+                                   hardlink=hardlink and not from_odb)
                     tr, fl = sorted(h.value for h in res.transferred), sorted(h.value for h in res.failed)
                     code = 0
                 except Exception as exc:  # noqa: BLE001
@@ -699,7 +770,7 @@ def run_case(ctx, case):
                 post = R.snap()
                 st = R.stat(o)
                 if st is None:
-                    if hardlink:
+                    if hardlink and not from_odb:
                         s_ = os.stat(wsf)
                         st = {"ino": s_.st_ino, "mtime_ns": s_.st_mtime_ns, "size": s_.st_size}
                     else:
@@ -725,7 +796,7 @@ def run_case(ctx, case):
                     q = post[o]
                     if q["exists"] and not q["intact"]:
                         fail("C07:verify-retained-mismatch:transfer", f"verifying transfer (hardlink={hardlink}) retained mismatching object {o}")
-                    src_ok = impl.md5hex(new) == o.split(".")[0]
+                    src_ok = hx(new) == o.split(".")[0]
                     if not src_ok and not (p["exists"] and p["intact"]):
                         tags.add("xfer:corrupt-source")
                         if o not in fl or o in tr:
@@ -734,7 +805,7 @@ def run_case(ctx, case):
                 o = oid_of(op[1])
                 R.known.add(o)
                 try:
-                    _, hi = hash_file(R.path(o), localfs, "md5", R.state)
+                    _, hi = hash_file(R.path(o), localfs, ALG[0], R.state)
                     v = hi.value
                 except FileNotFoundError:
                     v = None
@@ -776,7 +847,7 @@ def run_case(ctx, case):
     finally:
         R.close()
     tbl = clist(["(%s, %s)" % (cbytes(b), cbytes(h)) for b, h in sorted(table.items())])
-    inp = ctor("Case", "Local" if case["cls"] == "local" else "Base", cbool(case["state"]),
+    inp = ctor("Case", "Local" if case["cls"] == "local" else "Base", cbytes(ALG[0]), cbool(case["state"]),
                cbool(case.get("verify", False)), cN(0o666 & ~UMASK), tbl, clist(ops_t))
     inp = ctor("FCase", inp, copt(case.get("fault"), cbytes))
     return inp, exp, problems, nontrivial, tags
@@ -793,6 +864,7 @@ T, B, O = [0, ""], [1, ""], [3, ""]     # target, bystander, third object
 
 
 def product_cases(full=True):
+    full = True   # the quick tier selects from the full product (quick_selection)
     out = []
     changes = [("append", 0o644), ("truncate", 0o644), ("rewrite", 0o644), ("replace", 0o644), ("empty", 0o644),
                ("none", None), ("touch", None), ("chmod", 0o644)]
@@ -978,8 +1050,179 @@ def product_cases(full=True):
                             ops.append(["checkoutdir", DIR])
                         out.append({"cls": cls, "state": entry != "noop", "verify": False, "ops": ops,
                                     "tag": f"{pattern}/{entry}/re-{target}{'/reopen' if reopen else ''}"})
+    out += audit_cases()
     return out
 
+
+def audit_cases():
+    """fixed corpus for the input dimensions of tools/COVERAGE_AUDIT.md that matter for C07; every
+    quick run includes all of them (family "audit:*")"""
+    out = []
+
+    def case(cls, tag, ops, state=True, **kw):
+        out.append({"cls": cls, "state": state, "verify": False, "ops": ops, "tag": "audit:" + tag, **kw})
+
+    Z, DD, DDD, CR = [2, ""], [6, ""], [6, ".dir"], [7, ""]
+    for cls in ("local", "base"):
+        # link types of the cache: the corrupt bytes must not be materialised through any of them
+        for links in (["hardlink"], ["symlink"], ["reflink", "copy"], ["symlink", "copy"]):
+            for pattern, mode in (("append", 0o644), ("none", None), ("append", 0o444)):
+                ops = [["add", None, [[T, 0], [B, 1]]]]
+                if pattern != "none":
+                    ops.append(["tamper", T, pattern, mode, 3])
+                ops += [["checkout", T], ["checkout", B, True], ["checkout", T, True]]
+                if "symlink" not in links:
+                    ops.append(["checkoutdir", [["t", T], ["b", B]]])
+                case(cls, f"links:{'+'.join(links)}/{pattern}/{mode}", ops, links=links)
+        # md5-dos2unix store, CRLF content
+        for pattern in ("append", "none", "touch"):
+            for query in ("check", "exist", "checkout", "addverify", "xfer"):
+                ops = [["add", None, [[CR, 7], [B, 1]]]]
+                if pattern != "none":
+                    ops.append(["tamper", CR, pattern, 0o644, 3])
+                ops += {"check": [["check", CR], ["check", B]], "exist": [["exist", [B, CR]]],
+                        "checkout": [["checkout", CR], ["checkout", B, True]],
+                        "addverify": [["add", True, [[CR, 7], [O, 4]]], ["check", CR]],
+                        "xfer": [["xfer", [3, ""], "append", True, True], ["xfer", [4, ""], "none", True, False],
+                                 ["check", CR]]}[query]
+                case(cls, f"alg:md5-dos2unix/{pattern}/{query}", ops, alg="md5-dos2unix",
+                     state=(pattern != "rewrite"))
+        # ids ending in "d" (and the same with the .dir suffix), the zero-length object
+        for name, tgt, k in (("idd", DD, 6), ("idd.dir", DDD, 6), ("zero", Z, 2)):
+            for pattern, mode in (("append", 0o644), ("none", None), ("chmod", 0o644)):
+                for query in ("check", "exist", "checkout", "addverify"):
+                    if query == "checkout" and tgt is DDD:
+                        continue
+                    ops = [["add", None, [[tgt, k], [B, 1]]]]
+                    if pattern != "none":
+                        ops.append(["tamper", tgt, pattern, mode, 3])
+                    ops += {"check": [["check", tgt], ["check", B], ["check", tgt]],
+                            "exist": [["exist", [B, tgt]], ["exist", [tgt]]],
+                            "checkout": [["checkout", tgt], ["checkoutdir", [["z", tgt], ["b", B]]]],
+                            "addverify": [["add", True, [[tgt, k], [O, 4]]], ["check", tgt]]}[query]
+                    case(cls, f"{name}/{pattern}/{query}", ops, state=(query != "exist"))
+        # corrupt PROTECTED objects (mode 0o444 after the change): the Local mode shortcut trusts them - the
+        # property speaks of objects that are NOT write-protected; exercised and counted, not judged
+        for pattern in ("append", "replace"):
+            for query in ("check", "exist", "checkout", "checkoutdir", "checktree", "addverify"):
+                TEp = [["t", 0], ["b", 1]]
+                ops = [["add", None, [[T, 0], [B, 1], [["tree", TEp], "self"]]],
+                       ["tamper", T, pattern, 0o444, 3]]
+                ops += {"check": [["check", T]], "exist": [["exist", [T, B]]], "checkout": [["checkout", T]],
+                        "checkoutdir": [["checkoutdir", [["t", T], ["b", B]]]], "checktree": [["checktree", TEp]],
+                        "addverify": [["add", True, [[T, 0]]], ["check", T]]}[query]
+                case(cls, f"protected-corrupt/{pattern}/{query}", ops)
+        # check_hash=False
+        for pattern in ("append", "none"):
+            ops = [["add", None, [[T, 0]]]]
+            if pattern != "none":
+                ops.append(["tamper", T, pattern, 0o644, 3])
+            ops += [["checknh", T], ["checknh", [-1, ""]], ["check", T], ["checknh", T]]
+            case(cls, f"check_hash=False/{pattern}", ops)
+        # construction routes: add_bytes (no verification, no protection), plant under a wrong name, empty leftover
+        for route in ("addbytes-honest", "addbytes-corrupt", "plant-wrong", "empty-leftover"):
+            first = {"addbytes-honest": ["addbytes", T, 0], "addbytes-corrupt": ["addbytes", T, 5],
+                     "plant-wrong": ["plant", T, 1, 0o644], "empty-leftover": ["plant", T, 2, 0o644]}[route]
+            for query in ("check", "exist", "checkout", "addverify" if "corrupt" in route or "wrong" in route else "addplain"):
+                ops = [["add", None, [[B, 1]]], first]
+                ops += {"check": [["check", T]], "exist": [["exist", [T, B]]], "checkout": [["checkout", T, True]],
+                        "addverify": [["add", True, [[T, 0]]], ["check", T]],
+                        "addplain": [["add", False, [[T, 0]]], ["check", T]]}[query]
+                case(cls, f"route:{route}/{query}", ops, state=(query != "check"))
+        # delete fault with EIO instead of EPERM
+        for query in ("check", "exist", "checkout", "checkoutdir", "checktree", "addverify", "xfer"):
+            TEp = [["t", 0], ["b", 1]]
+            ops = [["add", None, [[T, 0], [B, 1]]], ["tamper", T, "append", 0o644, 3]]
+            ops += {"check": [["check", T], ["check", B]], "exist": [["exist", [B, T]]],
+                    "checkout": [["checkout", T], ["checkout", T, True]],
+                    "checkoutdir": [["checkoutdir", [["t", T], ["b", B]]]], "checktree": [["checktree", TEp]],
+                    "addverify": [["add", True, [[B, 1], [T, 0]]]],
+                    "xfer": [["xfer", T, "none", True, False]]}[query]
+            case(cls, f"fault:EIO/{query}", ops, fault=oid_of(T)[:2], fault_errno="EIO")
+        # the source is another object store (what index fetch does): verify per call
+        for change in ("none", "append", "replace"):
+            for verify in (True, False):
+                case(cls, f"xfer-from-odb/{change}/{verify}",
+                     [["add", None, [[B, 1]]], ["xfer", T, change, verify, False, "odb"], ["check", T],
+                      ["exist", [T]], ["checkout", T]])
+        # store default verify=True with the per-call flag absent / overriding
+        for v in (None, False, True):
+            out.append({"cls": cls, "state": True, "verify": True, "tag": f"audit:store-verify/{v}",
+                        "ops": [["add", v, [[T, 5], [B, 1]]], ["check", T], ["exist", [T, B]],
+                                ["xfer", O, "append", False, False], ["check", O]]})
+        # directory listings: odd and nested names, two names for one object, the empty listing
+        names = [["we\\ird name.txt", 0], [".hidden", 1], ["sub/deep/\u0444\u0430\u0439\u043b.dir", 3], ["imgs", 4], ["imgs_raw", 6]]
+        for pattern in ("append", "none"):
+            ops = [["add", None, [[[k, ""], k] for _, k in names] + [[["tree", names], "self"]]]]
+            if pattern != "none":
+                ops.append(["tamper", [3, ""], pattern, 0o644, 1])
+            ops += [["checkoutdir", [[nm, [k, ""]] for nm, k in names]], ["checktree", names],
+                    ["check", ["tree", names]]]
+            case(cls, f"names/{pattern}", ops)
+        dup = [["a", 0], ["copy-of-a", 0], ["b", 1]]
+        for pattern in ("append", "none"):
+            ops = [["add", None, [[T, 0], [B, 1], [["tree", dup], "self"]]]]
+            if pattern != "none":
+                ops.append(["tamper", T, pattern, 0o644, 3])
+            ops += [["checktree", dup], ["checkoutdir", [[nm, [k, ""]] for nm, k in dup]]]
+            case(cls, f"duplicate-ids/{pattern}", ops)
+        for pattern in ("append", "none", "chmod"):
+            ops = [["add", None, [[["tree", []], "self"]]]]
+            if pattern != "none":
+                ops.append(["tamper", ["tree", []], pattern, 0o644, 3])
+            ops += [["checktree", []], ["check", ["tree", []]], ["checkoutdir", []]]
+            case(cls, f"empty-listing/{pattern}", ops, state=(pattern != "chmod"))
+    return out
+
+
+def fam_grp(c):
+    """(family, group) of a product case: the quick tier keeps one representative per group"""
+    tag = c["tag"]
+    if tag.startswith("audit:"):
+        return "audit", tag
+    for pre in ("dir:", "ro:", "tree:", "xfer:", "batch:", "fault:"):
+        if tag.startswith(pre):
+            parts = tag[len(pre):].split("/")
+            fam = pre[:-1]
+            if fam == "dir":
+                return fam, (parts[0],)
+            if fam == "fault":
+                return fam, (parts[2],)
+            if fam == "ro":
+                return fam, (parts[2],)
+            if fam == "tree":
+                return fam, (parts[0], parts[2])
+            if fam == "xfer":
+                return fam, (parts[0], parts[1], parts[2])
+            return fam, (parts[0],)
+    parts = tag.split("/")
+    if "/re-" in tag:
+        return "re", (parts[0],)
+    return "main", (parts[0], parts[2])
+
+
+def quick_selection(ctx, cases):
+    """the whole audit corpus, one representative per (family, class, group) - the member changes
+    with the group's rank so that every state entry / prior / shard variant is reached - and a
+    seeded sample of the rest"""
+    groups = {}
+    for c in cases:
+        fam, grp = fam_grp(c)
+        groups.setdefault((fam, c["cls"], grp), []).append(c)
+    fixed, rest = [], []
+    for n, (key, members) in enumerate(sorted(groups.items(), key=lambda kv: repr(kv[0]))):
+        if key[0] == "audit":
+            fixed += members
+            continue
+        if (key[0] == "main" and key[2][1] == "checkoutst" and key[2][0] not in ("none", "append", "replace")) or \
+                (key[0] == "xfer" and key[2][2] == "-" and key[2][0] not in ("none", "append")) or \
+                (key[0] == "tree" and key[2][1] == "entry" and key[2][0] not in ("none", "append")):
+            rest += members
+            continue
+        pick = n % len(members)
+        fixed.append(members[pick])
+        rest += members[:pick] + members[pick + 1:]
+    return fixed + ctx.rng.sample(rest, min(20, len(rest)))
 
 def random_case(rng):
     cls = rng.choice(["local", "base"])
@@ -1085,9 +1328,13 @@ def load_corpus():
 
 
 def run(ctx):
-    cases = load_corpus() + product_cases(full=ctx.tier != "quick" or bool(ctx.changed_anchors))
-    for _ in range(ctx.n(90, 1500)):
+    cases = product_cases()
+    if ctx.tier == "quick" and not ctx.changed_anchors:
+        cases = quick_selection(ctx, cases)
+    cases = load_corpus() + cases
+    for _ in range(ctx.n(40, 1500)):
         cases.append(random_case(ctx.rng))
+    dims = {}
     items = []
     seen_tags = set()
     for c in cases:
@@ -1102,6 +1349,11 @@ def run(ctx):
         for sig, what in problems:
             ctx.oracle_fail(sig, what, c)
         items.append((c, inp, exp))
+        for d_ in case_dimensions(c, tags):
+            dims[d_] = dims.get(d_, 0) + 1
+    probes(ctx, dims)
+    ctx.extra["input_dimensions"] = dict(sorted(dims.items()))
+    ctx.extra["observations"] = OBSERVATIONS
     if SHARED.get("state") is not None:
         SHARED["state"].close()
         SHARED.clear()
@@ -1116,6 +1368,186 @@ def run(ctx):
     if not need <= seen_tags:
         ctx.broken("correspondence", "generator:coverage", "the generators no longer reach " + ", ".join(sorted(need - seen_tags)))
     ctx.correspond("integrity", IMPORTS, "fcase", "fenc_run", items, shard=64)
+
+
+def probes(ctx, dims):
+    """oracle-only scenarios outside the model: anomalies at an object's path, index-level fetch with
+    the remote's verify flag, index-level checkout (observed, not judged: it is not among C07's
+    anchored functions and performs no integrity check at all)"""
+    import hashlib
+
+    from dvc_objects.fs.local import LocalFileSystem
+
+    from dvc_data.hashfile.checkout import checkout
+    from dvc_data.hashfile.db import HashFileDB
+    from dvc_data.hashfile.db.local import LocalHashFileDB
+    from dvc_data.hashfile.hash_info import HashInfo
+    from dvc_data.hashfile.meta import Meta
+    from dvc_data.hashfile.obj import HashFile
+
+    fs = LocalFileSystem()
+    good = b"probe-object"
+    oid = hashlib.md5(good).hexdigest()  # noqa: S324
+    measured = {}
+
+    def mk(cls, name, **cfg):
+        r = ctx.fresh("c07p")
+        odb = (LocalHashFileDB if cls == "local" else HashFileDB)(fs, os.path.join(r, "store"), **cfg)
+        src = os.path.join(r, "src")
+        with open(src, "wb") as f:
+            f.write(good)
+        odb.add([src], fs, [oid])
+        return r, odb
+
+    def attempt(f):
+        try:
+            return 0, f()
+        except Exception as exc:  # noqa: BLE001
+            return type(exc).__name__, None
+
+    for cls in ("local", "base"):
+        for anomaly in ("directory", "dangling-symlink", "symlink-to-other-bytes"):
+            r, odb = mk(cls, anomaly)
+            p = odb.oid_to_path(oid)
+            os.chmod(p, 0o644)
+            os.unlink(p)
+            if anomaly == "directory":
+                os.mkdir(p)
+            elif anomaly == "dangling-symlink":
+                os.symlink(os.path.join(r, "nowhere"), p)
+            else:
+                with open(os.path.join(r, "other"), "wb") as f:
+                    f.write(b"OTHER BYTES")
+                os.symlink(os.path.join(r, "other"), p)
+            case = {"probe": "object-path-anomaly", "cls": cls, "anomaly": anomaly}
+            c1, _ = attempt(lambda: odb.check(oid))
+            if c1 == 0:
+                ctx.oracle_fail("C07:anomaly-accepted:check", f"check accepted a {anomaly} at the object's path", case)
+            c2, lst = attempt(lambda: list(odb.oids_exist([oid])))
+            if cls == "local" and c2 == 0 and oid in lst:
+                ctx.oracle_fail("C07:anomaly-accepted:oids_exist", f"oids_exist listed a {anomaly} at the object's path", case)
+            dest = os.path.join(r, "ws-out")
+            c3, _ = attempt(lambda: checkout(dest, fs, HashFile(None, None, HashInfo("md5", oid)), odb, quiet=True))
+            served = None
+            if os.path.isfile(dest):
+                with open(dest, "rb") as f:
+                    served = f.read()
+            if served is not None and served != good:
+                ctx.oracle_fail("C07:corrupt-materialised:anomaly", f"checkout served {served!r} from a {anomaly}", case)
+            measured[f"anomaly:{cls}:{anomaly}"] = [str(c1), str(c2), str(c3)]
+            dims["anomaly-at-object-path:" + anomaly] = dims.get("anomaly-at-object-path:" + anomaly, 0) + 1
+            ctx.evaluations += 1
+            impl.rm_rf(r)
+    # index fetch: transfer(remote.odb, cache.odb, verify=remote.odb.verify)
+    try:
+        from dvc_data.index import DataIndex, DataIndexEntry, ObjectStorage
+        from dvc_data.index.checkout import apply, compare
+        from dvc_data.index.fetch import fetch
+
+        for cls in ("local", "base"):
+            for rverify in (True, False):
+                r, remote = mk(cls, "fetch", verify=rverify)
+                cache = (LocalHashFileDB if cls == "local" else HashFileDB)(fs, os.path.join(r, "cache"))
+                p = remote.oid_to_path(oid)
+                os.chmod(p, 0o644)
+                with open(p, "ab") as f:
+                    f.write(b"X")
+                os.chmod(p, 0o444)
+                idx = DataIndex({("f",): DataIndexEntry(key=("f",), meta=Meta(size=len(good)), hash_info=HashInfo("md5", oid))})
+                idx.storage_map.add_cache(ObjectStorage((), cache))
+                idx.storage_map.add_data(ObjectStorage((), remote))
+                code, res = attempt(lambda: fetch([idx]))
+                q = cache.oid_to_path(oid)
+                kept = os.path.exists(q)
+                if rverify and kept:
+                    ctx.oracle_fail("C07:verify-retained-mismatch:fetch",
+                                    "index fetch from a remote configured verify=True left the mismatching object in the cache",
+                                    {"probe": "index-fetch", "cls": cls, "remote_verify": True})
+                if rverify and code == 0 and res and res[1] < 1:
+                    ctx.oracle_fail("C07:verify-drop-not-reported:fetch", f"index fetch reported {res} for a corrupt remote object",
+                                    {"probe": "index-fetch", "cls": cls, "remote_verify": True})
+                measured[f"index-fetch:{cls}:remote.verify={rverify}"] = [str(code), str(res), "retained" if kept else "dropped"]
+                dims[f"route:index-fetch/verify={rverify}"] = dims.get(f"route:index-fetch/verify={rverify}", 0) + 1
+                ctx.evaluations += 1
+                impl.rm_rf(r)
+        # index checkout from a cache holding a corrupt unprotected object: OBSERVED only
+        for links in (["copy"], ["symlink"], ["hardlink"]):
+            r, cache = mk("local", "idx-checkout", type=links)
+            p = cache.oid_to_path(oid)
+            os.chmod(p, 0o644)
+            with open(p, "ab") as f:
+                f.write(b"X")
+            idx = DataIndex({("f",): DataIndexEntry(key=("f",), meta=Meta(size=len(good)), hash_info=HashInfo("md5", oid))})
+            idx.storage_map.add_cache(ObjectStorage((), cache))
+            errs = []
+            code, _ = attempt(lambda: apply(compare(None, idx), os.path.join(r, "ws"), fs, storage="cache", links=links,
+                                            onerror=lambda *a: errs.append(type(a[-1]).__name__)))
+            dest = os.path.join(r, "ws", "f")
+            served = None
+            if os.path.exists(dest):
+                with open(dest, "rb") as f:
+                    served = f.read()
+            measured[f"index-checkout:{'+'.join(links)}"] = [str(code), ",".join(errs),
+                                                             "SERVED CORRUPT BYTES" if served not in (None, good) else "not served"]
+            dims["route:index-checkout(observed)"] = dims.get("route:index-checkout(observed)", 0) + 1
+            ctx.evaluations += 1
+            impl.rm_rf(r)
+    except ImportError as exc:
+        measured["index-probes"] = ["skipped: " + repr(exc)]
+    ctx.extra["probes"] = measured
+
+
+OBSERVATIONS = [
+    "corrupt PROTECTED objects (mode 0o444) on a Local store are trusted by mode: check / oids_exist accept them and "
+    "checkout materialises them through every link type (by design of the mode shortcut; the property text excludes "
+    "write-protected objects); a Base store ignores the mode and rejects them",
+    "link type symlink: checkout of a corrupt/missing object creates the link to the (deleted) object first, then "
+    "fails with FileNotFoundError on the stat of the new path - no bytes are served, but a DANGLING symlink is left in "
+    "the workspace and the exception is not CheckoutError",
+    "transfer(src, dest) passes its own verify argument (default False) down to dest.add, overriding the store "
+    "default: push into a store configured verify=True retains a mismatching object (index push never verifies; "
+    "index fetch passes the REMOTE's verify flag)",
+    "index checkout (index/checkout.py apply) performs no integrity check of the cache: a corrupt UNPROTECTED object is "
+    "materialised silently through copy, symlink and hardlink (measured on every run under coverage.probes; not judged: "
+    "the function is not among C07's anchors - reported to the lead)",
+    "a directory at an object's path makes check / Local oids_exist / checkout raise IsADirectoryError (a refusal by "
+    "error, nothing deleted); a Base oids_exist reports a directory or a dangling symlink at the path as existing",
+]
+
+
+def case_dimensions(c, tags):
+    """input dimensions of tools/COVERAGE_AUDIT.md reached by this case"""
+    d = ["class:" + c["cls"], "state:" + ("real" if c["state"] else "noop"), "family:" + fam_grp(c)[0] if c.get("tag") != "random" else "family:random"]
+    if c.get("links"):
+        d.append("links:" + "+".join(c["links"]))
+    if c.get("alg"):
+        d.append("algorithm:" + c["alg"])
+    if c.get("fault"):
+        d.append("delete-fault:" + c.get("fault_errno", "EPERM"))
+    if c.get("verify"):
+        d.append("store-default-verify")
+    flat = repr(c["ops"])
+    for key, dim in (("'.dir'", "id:.dir-suffix"), ("'tree'", "id:tree-own-object"), ("'handle', 'ro'", "handle:read_only"),
+                     ("'reopen'", "handle:re-created"), ("'dropstate'", "state:wiped"), ("'hash'", "state:warm"),
+                     ("'saverow'", "state:foreign-row"), ("'checknh'", "flag:check_hash=False"),
+                     ("'addbytes'", "route:add_bytes"), ("'plant'", "route:planted-file"), ("'xfer'", "route:transfer"),
+                     ("'checktree'", "route:tree-check"), ("'checkoutdir'", "route:checkout-dir"),
+                     ("'checkout'", "route:checkout-file"), ("'exist'", "route:oids_exist"), ("'odb'", "route:transfer-from-odb"),
+                     ("'restore'", "tamper:mtime-restoring"), ("'del'", "env:object-deleted"),
+                     ("[2, '']", "id:zero-length-object"), ("[6, ", "id:ends-in-dd"), ("[4, '']", "id:ends-in-d")):
+        if key in flat:
+            d.append(dim)
+    for op in c["ops"]:
+        if op[0] == "tamper":
+            d.append("tamper:" + op[2] + ("/kept-protected" if op[3] == 0o444 else ""))
+        if op[0] == "add":
+            d.append("add:verify=" + str(op[1]))
+        if op[0] == "xfer":
+            d.append(f"transfer:verify={op[3]}/hardlink={op[4]}")
+    for t in tags:
+        if t.startswith(("fault:", "checkout:dangling", "checkout:symlink", "checkout:refused", "xfer:corrupt")):
+            d.append("outcome:" + t)
+    return sorted(set(d))
 
 
 def replay_case(ctx, case):
